@@ -1,1 +1,695 @@
-(* Props/C19.v -- stub, to be filled in *)
+(* Props/C19.v -- property theorems only: Theorem / exact lemma / Check (pins the statement) /
+   Print Assumptions, and beside every implication an Example showing its hypotheses are met by a
+   concrete non-trivial input.
+
+   C19: meshes return what was stored through every access path; piecewise-linear interpolation
+   returns nodal values at nodes and the linear interpolant inside a cell; trapezium quadrature is
+   the sum of the cell contributions and exact on (bi)linear data; a written 1-D mesh reads back.
+
+   Storage theorems: any arithmetic A, any coordinate type X, all sizes (Closed under the global
+   context).  Interpolation / quadrature: the same model functions at the arithmetic AR of the
+   reals (Proofs/MeshBase.v), the window being the constant snapR regenerated from the source;
+   [spaced snap xs] = consecutive nodes more than 2*snap apart (strictly increasing).
+   NOT proved (DESIGN 10): floating-point accuracy of the f64 instance (tied bit-for-bit to the
+   implementation and searched on every check), number formatting (abstract: parse (fmt x) = x). *)
+From Coq Require Import List Arith Bool Reals Lra.
+From OV Require Import Base.Panic.
+From OV Require Import Base.Arith.
+From OV Require Import Model.Vector.
+From OV Require Import Model.Matrix.
+From OV Require Import Model.Mesh.
+From OV Require Import Inst.QcInst.
+From OV Require Import Proofs.MeshBase.
+From OV Require Import Proofs.MeshStore.
+From OV Require Import Proofs.MeshQuad.
+From OV Require Import Proofs.MeshInterp.
+From OV Require Import Proofs.MeshIO.
+From OV Require Import Proofs.MeshInterp2.
+From OV Require Import Proofs.MeshQuad2.
+From OV Require Import Proofs.MeshIO2.
+From OV Require Import Model.MeshOps.
+From OV Require Import Proofs.MeshHist.
+Import ListNotations.
+
+(* a 3 x 2 grid with 2 variables per node, over the rationals, coordinates in nat *)
+Definition ex_m2 : mesh2 AQ nat := mesh2_new [10; 20; 30] [1; 2] 2.
+Definition ex_m1 : mesh1 AQ nat := mesh1_new [10; 20; 30] 2.
+Lemma ex_m2_wf : wf2 ex_m2. Proof. apply mesh2_new_wf. Qed.
+Lemma ex_m1_wf : wf1 ex_m1. Proof. apply mesh1_new_wf. Qed.
+
+(* ------------------------------------------------------------------ P1: storage laws *)
+
+Theorem mesh1_get_set : forall (A : Arith) (X : Type) (m : mesh1 A X) node v,
+  wf1 m -> node < nnodes1 m -> length v = m1_nvars m ->
+  exists m', set_nodes_vars1 m node v = Ok m' /\ wf1 m' /\
+    m1_nodes m' = m1_nodes m /\ m1_nvars m' = m1_nvars m /\
+    (forall node', node' < nnodes1 m ->
+       get_nodes_vars1 m' node' = if node =? node' then Ok v else get_nodes_vars1 m node') /\
+    (forall node', index1 m' node' = if node =? node' then Ok v else index1 m node').
+Proof. intros A X m node v. exact (MeshStore.mesh1_get_set m node v). Qed.
+Check mesh1_get_set : forall (A : Arith) (X : Type) (m : mesh1 A X) node v,
+  wf1 m -> node < nnodes1 m -> length v = m1_nvars m ->
+  exists m', set_nodes_vars1 m node v = Ok m' /\ wf1 m' /\
+    m1_nodes m' = m1_nodes m /\ m1_nvars m' = m1_nvars m /\
+    (forall node', node' < nnodes1 m ->
+       get_nodes_vars1 m' node' = if node =? node' then Ok v else get_nodes_vars1 m node') /\
+    (forall node', index1 m' node' = if node =? node' then Ok v else index1 m node').
+Print Assumptions mesh1_get_set.
+Example mesh1_get_set_nonvacuous : wf1 ex_m1 /\ 2 < nnodes1 ex_m1 /\ length [q 5 1; q 7 2] = m1_nvars ex_m1.
+Proof. split; [exact ex_m1_wf|]. cbn. auto. Qed.
+
+Theorem mesh2_get_set : forall (A : Arith) (X : Type) (m : mesh2 A X) i j v,
+  wf2 m -> i < m2_nx m -> j < m2_ny m -> length v = m2_nvars m ->
+  exists m', set_nodes_vars2 m i j v = Ok m' /\ wf2 m' /\ shape2_eq m' m /\
+    (forall i' j', i' < m2_nx m -> j' < m2_ny m ->
+       get_nodes_vars2 m' i' j' = if (i =? i') && (j =? j') then Ok v else get_nodes_vars2 m i' j') /\
+    (forall i' j', i' < m2_nx m -> j' < m2_ny m ->
+       index2 m' i' j' = if (i =? i') && (j =? j') then Ok v else index2 m i' j').
+Proof. intros A X m i j v. exact (MeshStore.mesh2_get_set m i j v). Qed.
+Check mesh2_get_set : forall (A : Arith) (X : Type) (m : mesh2 A X) i j v,
+  wf2 m -> i < m2_nx m -> j < m2_ny m -> length v = m2_nvars m ->
+  exists m', set_nodes_vars2 m i j v = Ok m' /\ wf2 m' /\ shape2_eq m' m /\
+    (forall i' j', i' < m2_nx m -> j' < m2_ny m ->
+       get_nodes_vars2 m' i' j' = if (i =? i') && (j =? j') then Ok v else get_nodes_vars2 m i' j') /\
+    (forall i' j', i' < m2_nx m -> j' < m2_ny m ->
+       index2 m' i' j' = if (i =? i') && (j =? j') then Ok v else index2 m i' j').
+Print Assumptions mesh2_get_set.
+Example mesh2_get_set_nonvacuous :
+  wf2 ex_m2 /\ 2 < m2_nx ex_m2 /\ 1 < m2_ny ex_m2 /\ length [q 5 1; q 7 2] = m2_nvars ex_m2.
+Proof. split; [exact ex_m2_wf|]. cbn. auto. Qed.
+
+(* the unguarded index operators: mesh[(i,j)][var] = x *)
+Theorem mesh2_index_set_elem : forall (A : Arith) (X : Type) (m : mesh2 A X) i j var (x : A) old_row,
+  wf2 m -> i < m2_nx m -> j < m2_ny m -> var < m2_nvars m -> index2 m i j = Ok old_row ->
+  exists m', index2_set_elem m i j var x = Ok m' /\ wf2 m' /\ shape2_eq m' m /\
+    (forall i' j', i' < m2_nx m -> j' < m2_ny m ->
+       index2 m' i' j' = if (i =? i') && (j =? j') then Ok (upd_list old_row var x) else index2 m i' j') /\
+    (forall i' j', i' < m2_nx m -> j' < m2_ny m ->
+       get_nodes_vars2 m' i' j' = if (i =? i') && (j =? j') then Ok (upd_list old_row var x) else get_nodes_vars2 m i' j').
+Proof. intros A X m i j var x old_row. exact (MeshStore.index2_set_elem_spec m i j var x old_row). Qed.
+Check mesh2_index_set_elem : forall (A : Arith) (X : Type) (m : mesh2 A X) i j var (x : A) old_row,
+  wf2 m -> i < m2_nx m -> j < m2_ny m -> var < m2_nvars m -> index2 m i j = Ok old_row ->
+  exists m', index2_set_elem m i j var x = Ok m' /\ wf2 m' /\ shape2_eq m' m /\
+    (forall i' j', i' < m2_nx m -> j' < m2_ny m ->
+       index2 m' i' j' = if (i =? i') && (j =? j') then Ok (upd_list old_row var x) else index2 m i' j') /\
+    (forall i' j', i' < m2_nx m -> j' < m2_ny m ->
+       get_nodes_vars2 m' i' j' = if (i =? i') && (j =? j') then Ok (upd_list old_row var x) else get_nodes_vars2 m i' j').
+Print Assumptions mesh2_index_set_elem.
+Example mesh2_index_set_elem_nonvacuous :
+  wf2 ex_m2 /\ 2 < m2_nx ex_m2 /\ 1 < m2_ny ex_m2 /\ 1 < m2_nvars ex_m2 /\ index2 ex_m2 2 1 = Ok [q 0 1; q 0 1].
+Proof. split; [exact ex_m2_wf|]. cbn. auto. Qed.
+
+(* out-of-range nodes are rejected (Underflow is the `nx - 1` of an empty direction) *)
+Theorem mesh2_get_guard : forall (A : Arith) (X : Type) (m : mesh2 A X) i j,
+  m2_nx m <= i \/ m2_ny m <= j -> exists k, get_nodes_vars2 m i j = Panic k /\ (k = Guard \/ k = Underflow).
+Proof. intros A X m i j. exact (MeshStore.get_nodes_vars2_guard m i j). Qed.
+Check mesh2_get_guard : forall (A : Arith) (X : Type) (m : mesh2 A X) i j,
+  m2_nx m <= i \/ m2_ny m <= j -> exists k, get_nodes_vars2 m i j = Panic k /\ (k = Guard \/ k = Underflow).
+Print Assumptions mesh2_get_guard.
+Example mesh2_get_guard_nonvacuous : m2_nx ex_m2 <= 3 \/ m2_ny ex_m2 <= 0.
+Proof. left. cbn. auto. Qed.
+
+Theorem cross_section_xnode_spec : forall (A : Arith) (X : Type) (m : mesh2 A X) i,
+  wf2 m -> i < m2_nx m ->
+  exists s, cross_section_xnode m i = Ok s /\ wf1 s /\ m1_nodes s = m2_y m /\ m1_nvars s = m2_nvars m /\
+    forall j, j < m2_ny m -> get_nodes_vars1 s j = get_nodes_vars2 m i j.
+Proof. intros A X m i. exact (MeshStore.cross_section_xnode_spec m i). Qed.
+Check cross_section_xnode_spec : forall (A : Arith) (X : Type) (m : mesh2 A X) i,
+  wf2 m -> i < m2_nx m ->
+  exists s, cross_section_xnode m i = Ok s /\ wf1 s /\ m1_nodes s = m2_y m /\ m1_nvars s = m2_nvars m /\
+    forall j, j < m2_ny m -> get_nodes_vars1 s j = get_nodes_vars2 m i j.
+Print Assumptions cross_section_xnode_spec.
+Example cross_section_xnode_spec_nonvacuous : wf2 ex_m2 /\ 2 < m2_nx ex_m2.
+Proof. split; [exact ex_m2_wf|]. cbn. auto. Qed.
+
+Theorem cross_section_ynode_spec : forall (A : Arith) (X : Type) (m : mesh2 A X) j,
+  wf2 m -> j < m2_ny m ->
+  exists s, cross_section_ynode m j = Ok s /\ wf1 s /\ m1_nodes s = m2_x m /\ m1_nvars s = m2_nvars m /\
+    forall i, i < m2_nx m -> get_nodes_vars1 s i = get_nodes_vars2 m i j.
+Proof. intros A X m j. exact (MeshStore.cross_section_ynode_spec m j). Qed.
+Check cross_section_ynode_spec : forall (A : Arith) (X : Type) (m : mesh2 A X) j,
+  wf2 m -> j < m2_ny m ->
+  exists s, cross_section_ynode m j = Ok s /\ wf1 s /\ m1_nodes s = m2_x m /\ m1_nvars s = m2_nvars m /\
+    forall i, i < m2_nx m -> get_nodes_vars1 s i = get_nodes_vars2 m i j.
+Print Assumptions cross_section_ynode_spec.
+Example cross_section_ynode_spec_nonvacuous : wf2 ex_m2 /\ 1 < m2_ny ex_m2.
+Proof. split; [exact ex_m2_wf|]. cbn. auto. Qed.
+
+Theorem var_as_matrix_spec : forall (A : Arith) (X : Type) (m : mesh2 A X) var,
+  wf2 m -> var < m2_nvars m ->
+  exists M, var_as_matrix m var = Ok M /\ rows M = m2_nx m /\ cols M = m2_ny m /\
+    length (buf M) = m2_nx m * m2_ny m /\
+    forall i j, i < m2_nx m -> j < m2_ny m -> mget M i j = (let* r := get_nodes_vars2 m i j in rd r var).
+Proof. intros A X m var. exact (MeshStore.var_as_matrix_spec m var). Qed.
+Check var_as_matrix_spec : forall (A : Arith) (X : Type) (m : mesh2 A X) var,
+  wf2 m -> var < m2_nvars m ->
+  exists M, var_as_matrix m var = Ok M /\ rows M = m2_nx m /\ cols M = m2_ny m /\
+    length (buf M) = m2_nx m * m2_ny m /\
+    forall i j, i < m2_nx m -> j < m2_ny m -> mget M i j = (let* r := get_nodes_vars2 m i j in rd r var).
+Print Assumptions var_as_matrix_spec.
+Example var_as_matrix_spec_nonvacuous : wf2 ex_m2 /\ 1 < m2_nvars ex_m2.
+Proof. split; [exact ex_m2_wf|]. cbn. auto. Qed.
+
+Theorem assign2_spec : forall (A : Arith) (X : Type) (m : mesh2 A X) (x : A),
+  wf2 m ->
+  exists m', assign2 m x = Ok m' /\ wf2 m' /\ shape2_eq m' m /\
+    m2_vars m' = repeat (repeat x (m2_nvars m)) (m2_nx m * m2_ny m) /\
+    forall i j, i < m2_nx m -> j < m2_ny m -> get_nodes_vars2 m' i j = Ok (repeat x (m2_nvars m)).
+Proof. intros A X m x. exact (MeshStore.assign2_spec m x). Qed.
+Check assign2_spec : forall (A : Arith) (X : Type) (m : mesh2 A X) (x : A),
+  wf2 m ->
+  exists m', assign2 m x = Ok m' /\ wf2 m' /\ shape2_eq m' m /\
+    m2_vars m' = repeat (repeat x (m2_nvars m)) (m2_nx m * m2_ny m) /\
+    forall i j, i < m2_nx m -> j < m2_ny m -> get_nodes_vars2 m' i j = Ok (repeat x (m2_nvars m)).
+Print Assumptions assign2_spec.
+Example assign2_spec_nonvacuous : wf2 ex_m2 /\ 0 < m2_nx ex_m2 * m2_ny ex_m2 * m2_nvars ex_m2.
+Proof. split; [exact ex_m2_wf|]. cbn. auto 20. Qed.
+
+Theorem apply2_spec : forall (A : Arith) (X : Type) (func : X -> X -> res A) (f : nat -> nat -> A) (m : mesh2 A X) var,
+  wf2 m -> var < m2_nvars m ->
+  (forall i j, i < m2_nx m -> j < m2_ny m ->
+     exists x y, nth_error (m2_x m) i = Some x /\ nth_error (m2_y m) j = Some y /\ func x y = Ok (f i j)) ->
+  exists m', apply2 func m var = Ok m' /\ wf2 m' /\ shape2_eq m' m /\
+    forall i j, i < m2_nx m -> j < m2_ny m ->
+      exists r, get_nodes_vars2 m i j = Ok r /\ get_nodes_vars2 m' i j = Ok (upd_list r var (f i j)).
+Proof. intros A X func f m var. exact (MeshStore.apply2_spec func f m var). Qed.
+Check apply2_spec : forall (A : Arith) (X : Type) (func : X -> X -> res A) (f : nat -> nat -> A) (m : mesh2 A X) var,
+  wf2 m -> var < m2_nvars m ->
+  (forall i j, i < m2_nx m -> j < m2_ny m ->
+     exists x y, nth_error (m2_x m) i = Some x /\ nth_error (m2_y m) j = Some y /\ func x y = Ok (f i j)) ->
+  exists m', apply2 func m var = Ok m' /\ wf2 m' /\ shape2_eq m' m /\
+    forall i j, i < m2_nx m -> j < m2_ny m ->
+      exists r, get_nodes_vars2 m i j = Ok r /\ get_nodes_vars2 m' i j = Ok (upd_list r var (f i j)).
+Print Assumptions apply2_spec.
+Example apply2_spec_nonvacuous :
+  let func := fun x y : nat => @Ok AQ (q (Z.of_nat (x + y)) 1) in
+  let f := fun i j : nat => q (Z.of_nat (nth i (m2_x ex_m2) 0 + nth j (m2_y ex_m2) 0)) 1 in
+  wf2 ex_m2 /\ 1 < m2_nvars ex_m2 /\
+  (forall i j, i < m2_nx ex_m2 -> j < m2_ny ex_m2 ->
+     exists x y, nth_error (m2_x ex_m2) i = Some x /\ nth_error (m2_y ex_m2) j = Some y /\ func x y = Ok (f i j)).
+Proof.
+  cbv zeta. split; [exact ex_m2_wf|]. split; [cbn; auto|].
+  intros i j Hi Hj. cbn in Hi, Hj.
+  destruct i as [|[|[|i]]]; try (exfalso; inversion Hi as [|? H1]; inversion H1 as [|? H2]; inversion H2 as [|? H3]; inversion H3);
+  destruct j as [|[|j]]; try (exfalso; inversion Hj as [|? H1]; inversion H1 as [|? H2]; inversion H2);
+  cbn; eauto.
+Qed.
+
+(* any sequence of valid writes: the mesh after the run answers every in-range read as the
+   function-update specification does *)
+Theorem mesh2_writes_refine : forall (A : Arith) (X : Type) (m : mesh2 A X) ops g,
+  wf2 m -> Forall (wvalid2 m) ops ->
+  (forall i j, i < m2_nx m -> j < m2_ny m -> get_nodes_vars2 m i j = Ok (g i j)) ->
+  exists m', wrun2 m ops = Ok m' /\ wf2 m' /\ shape2_eq m' m /\
+    forall i j, i < m2_nx m -> j < m2_ny m ->
+      get_nodes_vars2 m' i j = Ok (fold_left (sstep2 (m2_nvars m)) ops g i j).
+Proof. intros A X m ops g. exact (MeshStore.mesh2_writes_refine m ops g). Qed.
+Check mesh2_writes_refine : forall (A : Arith) (X : Type) (m : mesh2 A X) ops g,
+  wf2 m -> Forall (wvalid2 m) ops ->
+  (forall i j, i < m2_nx m -> j < m2_ny m -> get_nodes_vars2 m i j = Ok (g i j)) ->
+  exists m', wrun2 m ops = Ok m' /\ wf2 m' /\ shape2_eq m' m /\
+    forall i j, i < m2_nx m -> j < m2_ny m ->
+      get_nodes_vars2 m' i j = Ok (fold_left (sstep2 (m2_nvars m)) ops g i j).
+Print Assumptions mesh2_writes_refine.
+Example mesh2_writes_refine_nonvacuous :
+  let ops : list (@wop2 AQ) := [@WSet AQ 2 1 [q 1 1; q 2 1]; @WSetElem AQ 0 1 1 (q 3 1); @WAssign AQ (q 4 1); @WSetIdx AQ 1 0 [q 5 1; q 6 1]] in
+  wf2 ex_m2 /\ Forall (wvalid2 ex_m2) ops /\
+  (forall i j, i < m2_nx ex_m2 -> j < m2_ny ex_m2 -> get_nodes_vars2 ex_m2 i j = Ok (repeat (q 0 1) 2)).
+Proof.
+  cbv zeta. split; [exact ex_m2_wf|]. split.
+  - repeat constructor.
+  - intros i j Hi Hj. exact (mesh2_new_get [10; 20; 30] [1; 2] 2 i j Hi Hj).
+Qed.
+
+Theorem mesh1_writes_refine : forall (A : Arith) (X : Type) (m : mesh1 A X) ops g,
+  wf1 m -> Forall (wvalid1 m) ops ->
+  (forall node, node < nnodes1 m -> get_nodes_vars1 m node = Ok (g node)) ->
+  exists m', wrun1 m ops = Ok m' /\ wf1 m' /\ m1_nodes m' = m1_nodes m /\ m1_nvars m' = m1_nvars m /\
+    forall node, node < nnodes1 m -> get_nodes_vars1 m' node = Ok (fold_left sstep1 ops g node).
+Proof. intros A X m ops g. exact (MeshStore.mesh1_writes_refine m ops g). Qed.
+Check mesh1_writes_refine : forall (A : Arith) (X : Type) (m : mesh1 A X) ops g,
+  wf1 m -> Forall (wvalid1 m) ops ->
+  (forall node, node < nnodes1 m -> get_nodes_vars1 m node = Ok (g node)) ->
+  exists m', wrun1 m ops = Ok m' /\ wf1 m' /\ m1_nodes m' = m1_nodes m /\ m1_nvars m' = m1_nvars m /\
+    forall node, node < nnodes1 m -> get_nodes_vars1 m' node = Ok (fold_left sstep1 ops g node).
+Print Assumptions mesh1_writes_refine.
+Example mesh1_writes_refine_nonvacuous :
+  let ops : list (@wop1 AQ) := [@W1Set AQ 2 [q 1 1; q 2 1]; @W1SetElem AQ 0 1 (q 3 1); @W1SetIdx AQ 1 [q 5 1; q 6 1]] in
+  wf1 ex_m1 /\ Forall (wvalid1 ex_m1) ops /\
+  (forall node, node < nnodes1 ex_m1 -> get_nodes_vars1 ex_m1 node = Ok (repeat (q 0 1) 2)).
+Proof.
+  cbv zeta. split; [exact ex_m1_wf|]. split.
+  - repeat constructor.
+  - intros node Hn. exact (mesh1_new_get [10; 20; 30] 2 node Hn).
+Qed.
+
+(* ------------------------------------------------------------------ P2: interpolation over R *)
+
+Theorem interp_at_node : forall (m : mesh1 AR R) k,
+  wf1 m -> 2 <= length (m1_nodes m) -> spaced snapR (m1_nodes m) -> k < length (m1_nodes m) ->
+  @interp1 AR snapR m (nth k (m1_nodes m) 0%R) = Ok (nth k (m1_vars m) []).
+Proof. intros m k. exact (MeshInterp.interp_at_node_snapR m k). Qed.
+Check interp_at_node : forall (m : mesh1 AR R) k,
+  wf1 m -> 2 <= length (m1_nodes m) -> spaced snapR (m1_nodes m) -> k < length (m1_nodes m) ->
+  @interp1 AR snapR m (nth k (m1_nodes m) 0%R) = Ok (nth k (m1_vars m) []).
+Print Assumptions interp_at_node.
+Print Assumptions ex_m2_wf. (* closed; separator: ends the axiom list above for the driver's parser, whose axiom pattern would otherwise read the next Check's `name :` *)
+Example interp_at_node_nonvacuous :
+  (0 < snapR)%R /\ wf1 ex_imesh /\ 2 <= length (m1_nodes ex_imesh) /\ spaced snapR (m1_nodes ex_imesh) /\
+  1 < length (m1_nodes ex_imesh) /\ @interp1 AR snapR ex_imesh 1%R = Ok [7%R].
+Proof. exact MeshInterp.interp_at_node_nonvacuous. Qed.
+
+Theorem interp_in_cell : forall (m : mesh1 AR R) k (x : R),
+  wf1 m -> spaced snapR (m1_nodes m) -> k + 1 < length (m1_nodes m) ->
+  (nth k (m1_nodes m) 0 + snapR <= x)%R -> (x <= nth (k + 1) (m1_nodes m) 0 - snapR)%R ->
+  @interp1 AR snapR m x =
+  Ok (lerp_row (nth k (m1_nodes m) 0%R) (nth (k + 1) (m1_nodes m) 0%R) x (nth k (m1_vars m) []) (nth (k + 1) (m1_vars m) [])).
+Proof. intros m k x. exact (MeshInterp.interp_in_cell_snapR m k x). Qed.
+Check interp_in_cell : forall (m : mesh1 AR R) k (x : R),
+  wf1 m -> spaced snapR (m1_nodes m) -> k + 1 < length (m1_nodes m) ->
+  (nth k (m1_nodes m) 0 + snapR <= x)%R -> (x <= nth (k + 1) (m1_nodes m) 0 - snapR)%R ->
+  @interp1 AR snapR m x =
+  Ok (lerp_row (nth k (m1_nodes m) 0%R) (nth (k + 1) (m1_nodes m) 0%R) x (nth k (m1_vars m) []) (nth (k + 1) (m1_vars m) [])).
+Print Assumptions interp_in_cell.
+Print Assumptions ex_m2_wf. (* closed; separator: ends the axiom list above for the driver's parser, whose axiom pattern would otherwise read the next Check's `name :` *)
+Example interp_in_cell_nonvacuous :
+  (0 < snapR)%R /\ wf1 ex_imesh /\ spaced snapR (m1_nodes ex_imesh) /\ 1 + 1 < length (m1_nodes ex_imesh) /\
+  (nth 1 (m1_nodes ex_imesh) 0 + snapR <= 2)%R /\ (2 <= nth (1 + 1) (m1_nodes ex_imesh) 0 - snapR)%R /\
+  @interp1 AR snapR ex_imesh 2%R = Ok [9%R].
+Proof. exact MeshInterp.interp_in_cell_nonvacuous. Qed.
+
+(* ------------------------------------------------------------------ P2: quadrature over R *)
+
+Theorem trapezium_cells : forall (m : mesh1 AR R) var (half : R),
+  wf1 m -> var < m1_nvars m -> 1 <= length (m1_nodes m) ->
+  @trapezium1 AR half m var =
+  Ok (sumR (length (m1_nodes m) - 1)
+        (fun k => (half * (node1 m (k + 1) - node1 m k) * (val1 m var k + val1 m var (k + 1)))%R)).
+Proof. intros m var half. exact (MeshQuad.trapezium1_cells m var half). Qed.
+Check trapezium_cells : forall (m : mesh1 AR R) var (half : R),
+  wf1 m -> var < m1_nvars m -> 1 <= length (m1_nodes m) ->
+  @trapezium1 AR half m var =
+  Ok (sumR (length (m1_nodes m) - 1)
+        (fun k => (half * (node1 m (k + 1) - node1 m k) * (val1 m var k + val1 m var (k + 1)))%R)).
+Print Assumptions trapezium_cells.
+Print Assumptions ex_m2_wf. (* closed; separator: ends the axiom list above for the driver's parser, whose axiom pattern would otherwise read the next Check's `name :` *)
+Example trapezium_cells_nonvacuous : wf1 ex_mesh1 /\ 0 < m1_nvars ex_mesh1 /\ 1 <= length (m1_nodes ex_mesh1).
+Proof. destruct MeshQuad.trapezium1_linear_exact_nonvacuous as (H1 & H2 & H3 & _). auto. Qed.
+
+Theorem trapezium_linear_exact : forall (m : mesh1 AR R) var (a b : R),
+  wf1 m -> var < m1_nvars m -> 1 <= length (m1_nodes m) ->
+  (forall k, k < length (m1_nodes m) -> val1 m var k = (a * node1 m k + b)%R) ->
+  @trapezium1 AR halfR m var =
+  Ok (a * (node1 m (length (m1_nodes m) - 1) * node1 m (length (m1_nodes m) - 1) - node1 m 0 * node1 m 0) / 2
+      + b * (node1 m (length (m1_nodes m) - 1) - node1 m 0))%R.
+Proof. intros m var a b. exact (MeshQuad.trapezium1_linear_exact m var a b). Qed.
+Check trapezium_linear_exact : forall (m : mesh1 AR R) var (a b : R),
+  wf1 m -> var < m1_nvars m -> 1 <= length (m1_nodes m) ->
+  (forall k, k < length (m1_nodes m) -> val1 m var k = (a * node1 m k + b)%R) ->
+  @trapezium1 AR halfR m var =
+  Ok (a * (node1 m (length (m1_nodes m) - 1) * node1 m (length (m1_nodes m) - 1) - node1 m 0 * node1 m 0) / 2
+      + b * (node1 m (length (m1_nodes m) - 1) - node1 m 0))%R.
+Print Assumptions trapezium_linear_exact.
+Print Assumptions ex_m2_wf. (* closed; separator: ends the axiom list above for the driver's parser, whose axiom pattern would otherwise read the next Check's `name :` *)
+Example trapezium_linear_exact_nonvacuous :
+  wf1 ex_mesh1 /\ 0 < m1_nvars ex_mesh1 /\ 1 <= length (m1_nodes ex_mesh1) /\
+  (forall k, k < length (m1_nodes ex_mesh1) -> val1 ex_mesh1 0 k = (2 * node1 ex_mesh1 k + 1)%R) /\
+  @trapezium1 AR halfR ex_mesh1 0 = Ok 12%R.
+Proof. exact MeshQuad.trapezium1_linear_exact_nonvacuous. Qed.
+
+Theorem trapezium2_cells : forall (m : mesh2 AR R) var (quarter : R),
+  wf2 m -> var < m2_nvars m -> 1 <= m2_nx m -> 1 <= m2_ny m ->
+  @trapezium2 AR quarter m var =
+  Ok (sumR (m2_nx m - 1) (fun i => sumR (m2_ny m - 1) (fun j => cell2 quarter m var i j))).
+Proof. intros m var quarter. exact (MeshQuad.trapezium2_cells m var quarter). Qed.
+Check trapezium2_cells : forall (m : mesh2 AR R) var (quarter : R),
+  wf2 m -> var < m2_nvars m -> 1 <= m2_nx m -> 1 <= m2_ny m ->
+  @trapezium2 AR quarter m var =
+  Ok (sumR (m2_nx m - 1) (fun i => sumR (m2_ny m - 1) (fun j => cell2 quarter m var i j))).
+Print Assumptions trapezium2_cells.
+Print Assumptions ex_m2_wf. (* closed; separator: ends the axiom list above for the driver's parser, whose axiom pattern would otherwise read the next Check's `name :` *)
+Example trapezium2_cells_nonvacuous : wf2 ex_mesh2 /\ 0 < m2_nvars ex_mesh2 /\ 1 <= m2_nx ex_mesh2 /\ 1 <= m2_ny ex_mesh2.
+Proof. destruct MeshQuad.trapezium2_bilinear_exact_nonvacuous as (H1 & H2 & H3 & H4 & _). auto. Qed.
+
+Theorem trapezium2_bilinear_exact : forall (m : mesh2 AR R) var (a b c d : R),
+  wf2 m -> var < m2_nvars m -> 1 <= m2_nx m -> 1 <= m2_ny m ->
+  (forall i j, i < m2_nx m -> j < m2_ny m ->
+     val2 m var i j = (a + b * nodex2 m i + c * nodey2 m j + d * nodex2 m i * nodey2 m j)%R) ->
+  let x0 := nodex2 m 0 in let xl := nodex2 m (m2_nx m - 1) in
+  let y0 := nodey2 m 0 in let yl := nodey2 m (m2_ny m - 1) in
+  let DX := (xl - x0)%R in let SX := ((xl * xl - x0 * x0) / 2)%R in
+  let DY := (yl - y0)%R in let SY := ((yl * yl - y0 * y0) / 2)%R in
+  @trapezium2 AR quarterR m var = Ok (a * DX * DY + b * SX * DY + c * DX * SY + d * SX * SY)%R.
+Proof. intros m var a b c d. exact (MeshQuad.trapezium2_bilinear_exact m var a b c d). Qed.
+Check trapezium2_bilinear_exact : forall (m : mesh2 AR R) var (a b c d : R),
+  wf2 m -> var < m2_nvars m -> 1 <= m2_nx m -> 1 <= m2_ny m ->
+  (forall i j, i < m2_nx m -> j < m2_ny m ->
+     val2 m var i j = (a + b * nodex2 m i + c * nodey2 m j + d * nodex2 m i * nodey2 m j)%R) ->
+  let x0 := nodex2 m 0 in let xl := nodex2 m (m2_nx m - 1) in
+  let y0 := nodey2 m 0 in let yl := nodey2 m (m2_ny m - 1) in
+  let DX := (xl - x0)%R in let SX := ((xl * xl - x0 * x0) / 2)%R in
+  let DY := (yl - y0)%R in let SY := ((yl * yl - y0 * y0) / 2)%R in
+  @trapezium2 AR quarterR m var = Ok (a * DX * DY + b * SX * DY + c * DX * SY + d * SX * SY)%R.
+Print Assumptions trapezium2_bilinear_exact.
+Print Assumptions ex_m2_wf. (* closed; separator: ends the axiom list above for the driver's parser, whose axiom pattern would otherwise read the next Check's `name :` *)
+Example trapezium2_bilinear_exact_nonvacuous :
+  wf2 ex_mesh2 /\ 0 < m2_nvars ex_mesh2 /\ 1 <= m2_nx ex_mesh2 /\ 1 <= m2_ny ex_mesh2 /\
+  (forall i j, i < m2_nx ex_mesh2 -> j < m2_ny ex_mesh2 ->
+     val2 ex_mesh2 0 i j = (1 + 2 * nodex2 ex_mesh2 i + 3 * nodey2 ex_mesh2 j + 4 * nodex2 ex_mesh2 i * nodey2 ex_mesh2 j)%R) /\
+  @trapezium2 AR quarterR ex_mesh2 0 = Ok 81%R.
+Proof. exact MeshQuad.trapezium2_bilinear_exact_nonvacuous. Qed.
+
+(* ------------------------------------------------------------------ P2: output / read as a token layout *)
+(* number formatting and parsing are abstract: any tok, fmt, parse with parse (fmt x) = Ok x *)
+
+(* output writes one line per node: the node, then its nvars variables (nvars + 1 tokens per line) *)
+Theorem output1_layout : forall (A : Arith) (tok : Type) (fmt : A -> tok) (m : mesh1 A A),
+  wf1 m ->
+  output1 tok fmt fmt m = Ok (layout1 tok fmt m) /\
+  length (layout1 tok fmt m) = length (m1_nodes m) /\
+  Forall (fun l => length l = m1_nvars m + 1) (layout1 tok fmt m).
+Proof.
+  intros A tok fmt m H. split; [exact (MeshIO.output1_layout tok fmt m H)|].
+  split; [exact (MeshIO.layout1_length tok fmt m H)|exact (MeshIO.layout1_line_length tok fmt m H)].
+Qed.
+Check output1_layout : forall (A : Arith) (tok : Type) (fmt : A -> tok) (m : mesh1 A A),
+  wf1 m ->
+  output1 tok fmt fmt m = Ok (layout1 tok fmt m) /\
+  length (layout1 tok fmt m) = length (m1_nodes m) /\
+  Forall (fun l => length l = m1_nvars m + 1) (layout1 tok fmt m).
+Print Assumptions output1_layout.
+
+(* reading the written tokens into ANY mesh with the same nvars (whatever nodes / values it held)
+   reproduces the written mesh *)
+Theorem read_layout_roundtrip : forall (A : Arith) (tok : Type) (fmt : A -> tok) (parse : tok -> res A),
+  (forall x, parse (fmt x) = Ok x) ->
+  forall m m0 : mesh1 A A,
+  wf1 m -> m1_nvars m0 = m1_nvars m -> Forall (fun r => length r = m1_nvars m0) (m1_vars m0) ->
+  (let* lines := output1 tok fmt fmt m in read1 tok parse m0 (concat lines)) = Ok m.
+Proof. intros A tok fmt parse Hpf m m0. exact (MeshIO.read_output_roundtrip tok fmt parse Hpf m m0). Qed.
+Check read_layout_roundtrip : forall (A : Arith) (tok : Type) (fmt : A -> tok) (parse : tok -> res A),
+  (forall x, parse (fmt x) = Ok x) ->
+  forall m m0 : mesh1 A A,
+  wf1 m -> m1_nvars m0 = m1_nvars m -> Forall (fun r => length r = m1_nvars m0) (m1_vars m0) ->
+  (let* lines := output1 tok fmt fmt m in read1 tok parse m0 (concat lines)) = Ok m.
+Print Assumptions read_layout_roundtrip.
+(* tokens = the numbers themselves (fmt = id, parse = Ok); a 3-node mesh with data read into a
+   5-node mesh holding other data *)
+Definition ex_io : mesh1 AQ Qcanon.Qc := @mkM1 AQ Qcanon.Qc 2 [q 0 1; q 1 2; q 3 1] [[q 1 1; q 2 1]; [q 3 1; q 4 1]; [q 5 1; q 6 1]].
+Definition ex_io0 : mesh1 AQ Qcanon.Qc := @mkM1 AQ Qcanon.Qc 2 [q 9 1; q 8 1; q 7 1; q 6 1; q 5 1] (repeat [q 7 1; q 7 1] 5).
+Example read_layout_roundtrip_nonvacuous :
+  (forall x : AQ, (fun t => @Ok AQ t) ((fun x => x) x) = Ok x) /\
+  wf1 ex_io /\ m1_nvars ex_io0 = m1_nvars ex_io /\ Forall (fun r => length r = m1_nvars ex_io0) (m1_vars ex_io0).
+Proof.
+  split; [reflexivity|]. split; [|split; [reflexivity|]].
+  - split; [reflexivity|]. repeat constructor.
+  - repeat constructor.
+Qed.
+Example output1_layout_nonvacuous : wf1 ex_io.
+Proof. split; [reflexivity|]. repeat constructor. Qed.
+
+(* Mesh2D::output: for every y node, one line per x node (x, y, the variables), then an empty line *)
+Theorem output2_layout : forall (A : Arith) (tok : Type) (fmt : A -> tok) (m : mesh2 A A),
+  wf2 m ->
+  output2 tok fmt fmt m = Ok (layout2 tok fmt m) /\ length (layout2 tok fmt m) = m2_ny m * (m2_nx m + 1).
+Proof.
+  intros A tok fmt m H. split; [exact (MeshIO.output2_layout tok fmt m H)|exact (MeshIO.layout2_length tok fmt m)].
+Qed.
+Check output2_layout : forall (A : Arith) (tok : Type) (fmt : A -> tok) (m : mesh2 A A),
+  wf2 m ->
+  output2 tok fmt fmt m = Ok (layout2 tok fmt m) /\ length (layout2 tok fmt m) = m2_ny m * (m2_nx m + 1).
+Print Assumptions output2_layout.
+Example output2_layout_nonvacuous : wf2 (mesh2_new (A:=AQ) [q 0 1; q 1 1; q 3 1] [q 0 1; q 2 1] 2).
+Proof. apply mesh2_new_wf. Qed.
+
+(* ------------------------------------------------------------------ P3: the interpolation loop, completely *)
+(* cellv m k x = the line of cell k evaluated at x (MeshInterp.v).  Inside the snapping window of a node
+   the line of the cell to its right is used (cells k-1 and k both match; the later one overwrites), at the
+   last node the line of the last cell; outside the grid the zero-initialised result is returned. *)
+
+Theorem interp_near_node : forall (m : mesh1 AR R) k (x : R),
+  wf1 m -> spaced snapR (m1_nodes m) -> 2 <= length (m1_nodes m) -> k < length (m1_nodes m) ->
+  (Rabs (x - nth k (m1_nodes m) 0) < snapR)%R ->
+  @interp1 AR snapR m x = Ok (cellv m (Nat.min k (length (m1_nodes m) - 2)) x).
+Proof. intros m k x. exact (MeshInterp2.interp_near_node m snapR k x snapR_pos). Qed.
+Check interp_near_node : forall (m : mesh1 AR R) k (x : R),
+  wf1 m -> spaced snapR (m1_nodes m) -> 2 <= length (m1_nodes m) -> k < length (m1_nodes m) ->
+  (Rabs (x - nth k (m1_nodes m) 0) < snapR)%R ->
+  @interp1 AR snapR m x = Ok (cellv m (Nat.min k (length (m1_nodes m) - 2)) x).
+Print Assumptions interp_near_node.
+Print Assumptions ex_m2_wf. (* closed; separator for the driver's parser *)
+Example interp_near_node_nonvacuous :
+  wf1 ex_imesh /\ spaced snapR (m1_nodes ex_imesh) /\ 2 <= length (m1_nodes ex_imesh) /\ 1 < length (m1_nodes ex_imesh) /\
+  (Rabs (1 - nth 1 (m1_nodes ex_imesh) 0) < snapR)%R.
+Proof.
+  destruct MeshInterp.interp_at_node_nonvacuous as (Hs & Hwf & Hn & Hsp & Hk & _).
+  split; [exact Hwf|]. split; [exact Hsp|]. split; [exact Hn|]. split; [exact Hk|].
+  unfold ex_imesh; cbn [m1_nodes nth]. apply Rabs_def1; lra.
+Qed.
+
+Theorem interp_near_node_bound : forall (m : mesh1 AR R) k (x : R) c,
+  wf1 m -> spaced snapR (m1_nodes m) -> 2 <= length (m1_nodes m) -> k < length (m1_nodes m) ->
+  (Rabs (x - nth k (m1_nodes m) 0) < snapR)%R -> c < m1_nvars m ->
+  let k' := Nat.min k (length (m1_nodes m) - 2) in
+  let slope := ((nth c (nth (k' + 1) (m1_vars m) []) 0 - nth c (nth k' (m1_vars m) []) 0) /
+                (nth (k' + 1) (m1_nodes m) 0 - nth k' (m1_nodes m) 0))%R in
+  exists r, @interp1 AR snapR m x = Ok r /\
+            (Rabs (nth c r 0 - nth c (nth k (m1_vars m) []) 0) <= Rabs slope * snapR)%R.
+Proof. intros m k x c. exact (MeshInterp2.interp_near_node_bound m snapR k x c snapR_pos). Qed.
+Check interp_near_node_bound : forall (m : mesh1 AR R) k (x : R) c,
+  wf1 m -> spaced snapR (m1_nodes m) -> 2 <= length (m1_nodes m) -> k < length (m1_nodes m) ->
+  (Rabs (x - nth k (m1_nodes m) 0) < snapR)%R -> c < m1_nvars m ->
+  let k' := Nat.min k (length (m1_nodes m) - 2) in
+  let slope := ((nth c (nth (k' + 1) (m1_vars m) []) 0 - nth c (nth k' (m1_vars m) []) 0) /
+                (nth (k' + 1) (m1_nodes m) 0 - nth k' (m1_nodes m) 0))%R in
+  exists r, @interp1 AR snapR m x = Ok r /\
+            (Rabs (nth c r 0 - nth c (nth k (m1_vars m) []) 0) <= Rabs slope * snapR)%R.
+Print Assumptions interp_near_node_bound.
+Print Assumptions ex_m2_wf. (* closed; separator for the driver's parser *)
+
+Example interp_near_node_bound_nonvacuous :
+  wf1 ex_imesh /\ spaced snapR (m1_nodes ex_imesh) /\ 2 <= length (m1_nodes ex_imesh) /\ 1 < length (m1_nodes ex_imesh) /\
+  (Rabs (1 - nth 1 (m1_nodes ex_imesh) 0) < snapR)%R /\ 0 < m1_nvars ex_imesh.
+Proof.
+  destruct interp_near_node_nonvacuous as (H1 & H2 & H3 & H4 & H5).
+  repeat (split; [assumption|]). cbn. auto.
+Qed.
+
+Theorem interp_outside_left : forall (m : mesh1 AR R) (x : R),
+  spaced snapR (m1_nodes m) -> 1 <= length (m1_nodes m) -> (x + snapR <= nth 0 (m1_nodes m) 0)%R ->
+  @interp1 AR snapR m x = Ok (repeat 0%R (m1_nvars m)).
+Proof. intros m x. exact (MeshInterp2.interp_outside_left m snapR x snapR_pos). Qed.
+Check interp_outside_left : forall (m : mesh1 AR R) (x : R),
+  spaced snapR (m1_nodes m) -> 1 <= length (m1_nodes m) -> (x + snapR <= nth 0 (m1_nodes m) 0)%R ->
+  @interp1 AR snapR m x = Ok (repeat 0%R (m1_nvars m)).
+Print Assumptions interp_outside_left.
+Print Assumptions ex_m2_wf. (* closed; separator for the driver's parser *)
+Example interp_outside_left_nonvacuous :
+  spaced snapR (m1_nodes ex_imesh) /\ 1 <= length (m1_nodes ex_imesh) /\ (-1 + snapR <= nth 0 (m1_nodes ex_imesh) 0)%R.
+Proof.
+  destruct MeshInterp.interp_at_node_nonvacuous as (Hs & Hwf & Hn & Hsp & Hk & _).
+  split; [exact Hsp|]. split; [cbn; auto|]. unfold ex_imesh; cbn [m1_nodes nth length Nat.sub]. unfold snapR in *; cbn in *; lra.
+Qed.
+
+Theorem interp_outside_right : forall (m : mesh1 AR R) (x : R),
+  spaced snapR (m1_nodes m) -> 1 <= length (m1_nodes m) ->
+  (nth (length (m1_nodes m) - 1) (m1_nodes m) 0 + snapR <= x)%R ->
+  @interp1 AR snapR m x = Ok (repeat 0%R (m1_nvars m)).
+Proof. intros m x. exact (MeshInterp2.interp_outside_right m snapR x snapR_pos). Qed.
+Check interp_outside_right : forall (m : mesh1 AR R) (x : R),
+  spaced snapR (m1_nodes m) -> 1 <= length (m1_nodes m) ->
+  (nth (length (m1_nodes m) - 1) (m1_nodes m) 0 + snapR <= x)%R ->
+  @interp1 AR snapR m x = Ok (repeat 0%R (m1_nvars m)).
+Print Assumptions interp_outside_right.
+Print Assumptions ex_m2_wf. (* closed; separator for the driver's parser *)
+Example interp_outside_right_nonvacuous :
+  spaced snapR (m1_nodes ex_imesh) /\ 1 <= length (m1_nodes ex_imesh) /\
+  (nth (length (m1_nodes ex_imesh) - 1) (m1_nodes ex_imesh) 0 + snapR <= 5)%R.
+Proof.
+  destruct MeshInterp.interp_at_node_nonvacuous as (Hs & Hwf & Hn & Hsp & Hk & _).
+  split; [exact Hsp|]. split; [cbn; auto|]. unfold ex_imesh; cbn [m1_nodes nth length Nat.sub]. unfold snapR in *; cbn in *; lra.
+Qed.
+
+Theorem interp_total : forall (m : mesh1 AR R) (x : R),
+  wf1 m -> spaced snapR (m1_nodes m) -> 2 <= length (m1_nodes m) ->
+  ((x + snapR <= nth 0 (m1_nodes m) 0)%R /\ @interp1 AR snapR m x = Ok (repeat 0%R (m1_nvars m))) \/
+  ((nth (length (m1_nodes m) - 1) (m1_nodes m) 0 + snapR <= x)%R /\ @interp1 AR snapR m x = Ok (repeat 0%R (m1_nvars m))) \/
+  (exists k, k < length (m1_nodes m) /\ (Rabs (x - nth k (m1_nodes m) 0) < snapR)%R /\
+             @interp1 AR snapR m x = Ok (cellv m (Nat.min k (length (m1_nodes m) - 2)) x)) \/
+  (exists k, k + 1 < length (m1_nodes m) /\ (nth k (m1_nodes m) 0 + snapR <= x)%R /\ (x <= nth (k + 1) (m1_nodes m) 0 - snapR)%R /\
+             @interp1 AR snapR m x = Ok (cellv m k x)).
+Proof. intros m x. exact (MeshInterp2.interp_total m snapR x snapR_pos). Qed.
+Check interp_total : forall (m : mesh1 AR R) (x : R),
+  wf1 m -> spaced snapR (m1_nodes m) -> 2 <= length (m1_nodes m) ->
+  ((x + snapR <= nth 0 (m1_nodes m) 0)%R /\ @interp1 AR snapR m x = Ok (repeat 0%R (m1_nvars m))) \/
+  ((nth (length (m1_nodes m) - 1) (m1_nodes m) 0 + snapR <= x)%R /\ @interp1 AR snapR m x = Ok (repeat 0%R (m1_nvars m))) \/
+  (exists k, k < length (m1_nodes m) /\ (Rabs (x - nth k (m1_nodes m) 0) < snapR)%R /\
+             @interp1 AR snapR m x = Ok (cellv m (Nat.min k (length (m1_nodes m) - 2)) x)) \/
+  (exists k, k + 1 < length (m1_nodes m) /\ (nth k (m1_nodes m) 0 + snapR <= x)%R /\ (x <= nth (k + 1) (m1_nodes m) 0 - snapR)%R /\
+             @interp1 AR snapR m x = Ok (cellv m k x)).
+Print Assumptions interp_total.
+Print Assumptions ex_m2_wf. (* closed; separator for the driver's parser *)
+Example interp_total_nonvacuous : wf1 ex_imesh /\ spaced snapR (m1_nodes ex_imesh) /\ 2 <= length (m1_nodes ex_imesh).
+Proof. destruct MeshInterp.interp_at_node_nonvacuous as (Hs & Hwf & Hn & Hsp & Hk & _). auto. Qed.
+
+(* piecewise-linear interpolation reproduces linear data at EVERY point of the grid range, the
+   snapping windows included (there the neighbouring cell's line is the same line) *)
+Theorem interp_linear_exact : forall (m : mesh1 AR R) (x : R) c (a b : R),
+  wf1 m -> spaced snapR (m1_nodes m) -> 2 <= length (m1_nodes m) -> c < m1_nvars m ->
+  (forall k, k < length (m1_nodes m) -> nth c (nth k (m1_vars m) []) 0%R = (a * nth k (m1_nodes m) 0 + b)%R) ->
+  (nth 0 (m1_nodes m) 0 - snapR < x)%R -> (x < nth (length (m1_nodes m) - 1) (m1_nodes m) 0 + snapR)%R ->
+  exists r, @interp1 AR snapR m x = Ok r /\ nth c r 0%R = (a * x + b)%R.
+Proof. intros m x c a b. exact (MeshInterp2.interp_linear_exact_snapR m x c a b). Qed.
+Check interp_linear_exact : forall (m : mesh1 AR R) (x : R) c (a b : R),
+  wf1 m -> spaced snapR (m1_nodes m) -> 2 <= length (m1_nodes m) -> c < m1_nvars m ->
+  (forall k, k < length (m1_nodes m) -> nth c (nth k (m1_vars m) []) 0%R = (a * nth k (m1_nodes m) 0 + b)%R) ->
+  (nth 0 (m1_nodes m) 0 - snapR < x)%R -> (x < nth (length (m1_nodes m) - 1) (m1_nodes m) 0 + snapR)%R ->
+  exists r, @interp1 AR snapR m x = Ok r /\ nth c r 0%R = (a * x + b)%R.
+Print Assumptions interp_linear_exact.
+Print Assumptions ex_m2_wf. (* closed; separator for the driver's parser *)
+Example interp_linear_exact_nonvacuous :
+  (0 < snapR)%R /\ wf1 ex_lmesh /\ spaced snapR (m1_nodes ex_lmesh) /\ 2 <= length (m1_nodes ex_lmesh) /\ 0 < m1_nvars ex_lmesh /\
+  (forall k, k < length (m1_nodes ex_lmesh) -> nth 0 (nth k (m1_vars ex_lmesh) []) 0%R = (2 * nth k (m1_nodes ex_lmesh) 0 + 1)%R) /\
+  (nth 0 (m1_nodes ex_lmesh) 0 - snapR < 2)%R /\ (2 < nth (length (m1_nodes ex_lmesh) - 1) (m1_nodes ex_lmesh) 0 + snapR)%R /\
+  @interp1 AR snapR ex_lmesh 2%R = Ok [5%R].
+Proof. exact MeshInterp2.interp_linear_exact_nonvacuous. Qed.
+
+(* ------------------------------------------------------------------ more quadrature / storage / reader *)
+
+Theorem square_trapezium2_cells : forall (m : mesh2 AR R) var (quarter : R),
+  wf2 m -> var < m2_nvars m -> 1 <= m2_nx m -> 1 <= m2_ny m ->
+  @square_trapezium2 AR quarter m var =
+  Ok (sumR (m2_nx m - 1) (fun i => sumR (m2_ny m - 1) (fun j =>
+        (quarter * (nodex2 m (i + 1) - nodex2 m i) * (nodey2 m (j + 1) - nodey2 m j) *
+         (val2 m var i j * val2 m var i j + val2 m var (i + 1) j * val2 m var (i + 1) j +
+          val2 m var i (j + 1) * val2 m var i (j + 1) + val2 m var (i + 1) (j + 1) * val2 m var (i + 1) (j + 1)))%R))).
+Proof. intros m var quarter. exact (MeshQuad2.square_trapezium2_cells m var quarter). Qed.
+Check square_trapezium2_cells : forall (m : mesh2 AR R) var (quarter : R),
+  wf2 m -> var < m2_nvars m -> 1 <= m2_nx m -> 1 <= m2_ny m ->
+  @square_trapezium2 AR quarter m var =
+  Ok (sumR (m2_nx m - 1) (fun i => sumR (m2_ny m - 1) (fun j =>
+        (quarter * (nodex2 m (i + 1) - nodex2 m i) * (nodey2 m (j + 1) - nodey2 m j) *
+         (val2 m var i j * val2 m var i j + val2 m var (i + 1) j * val2 m var (i + 1) j +
+          val2 m var i (j + 1) * val2 m var i (j + 1) + val2 m var (i + 1) (j + 1) * val2 m var (i + 1) (j + 1)))%R))).
+Print Assumptions square_trapezium2_cells.
+Print Assumptions ex_m2_wf. (* closed; separator for the driver's parser *)
+Example square_trapezium2_cells_nonvacuous : wf2 ex_mesh2 /\ 0 < m2_nvars ex_mesh2 /\ 1 <= m2_nx ex_mesh2 /\ 1 <= m2_ny ex_mesh2.
+Proof. exact trapezium2_cells_nonvacuous. Qed.
+
+Theorem idx_bijection : forall nx ny,
+  (forall i j, i < nx -> j < ny -> i * ny + j < nx * ny) /\
+  (forall i j i' j', j < ny -> j' < ny -> i * ny + j = i' * ny + j' -> i = i' /\ j = j') /\
+  (forall k, k < nx * ny -> exists i j, i < nx /\ j < ny /\ k = i * ny + j).
+Proof. exact MeshIO2.idx_bijection. Qed.
+Check idx_bijection : forall nx ny,
+  (forall i j, i < nx -> j < ny -> i * ny + j < nx * ny) /\
+  (forall i j i' j', j < ny -> j' < ny -> i * ny + j = i' * ny + j' -> i = i' /\ j = j') /\
+  (forall k, k < nx * ny -> exists i j, i < nx /\ j < ny /\ k = i * ny + j).
+Print Assumptions idx_bijection.
+
+Theorem mesh2_every_slot_is_a_node : forall (A : Arith) (X : Type) (m : mesh2 A X),
+  wf2 m -> forall k, k < length (m2_vars m) ->
+  exists i j, i < m2_nx m /\ j < m2_ny m /\ index2 m i j = rd (m2_vars m) k.
+Proof. intros A X m. exact (MeshIO2.mesh2_every_slot_is_a_node m). Qed.
+Check mesh2_every_slot_is_a_node : forall (A : Arith) (X : Type) (m : mesh2 A X),
+  wf2 m -> forall k, k < length (m2_vars m) ->
+  exists i j, i < m2_nx m /\ j < m2_ny m /\ index2 m i j = rd (m2_vars m) k.
+Print Assumptions mesh2_every_slot_is_a_node.
+Example mesh2_every_slot_is_a_node_nonvacuous : wf2 ex_m2 /\ 5 < length (m2_vars ex_m2).
+Proof. split; [exact ex_m2_wf|]. cbn. auto. Qed.
+
+Theorem read1_tokens_spec : forall (A : Arith) (tok : Type) (parse : tok -> res A) (m0 : mesh1 A A) (toks : list tok) (n : nat) (val : nat -> A),
+  length toks = n * (m1_nvars m0 + 1) ->
+  (forall i, i < length toks -> exists t, nth_error toks i = Some t /\ parse t = Ok (val i)) ->
+  Forall (fun r => length r = m1_nvars m0) (m1_vars m0) ->
+  read1 tok parse m0 toks =
+  Ok (mkM1 (m1_nvars m0) (map (fun k => val (k * (m1_nvars m0 + 1))) (seq 0 n))
+           (map (fun k => map (fun v => val (k * (m1_nvars m0 + 1) + S v)) (seq 0 (m1_nvars m0))) (seq 0 n))).
+Proof. intros A tok parse m0 toks n val. exact (MeshIO2.read1_tokens_spec tok parse m0 toks n val). Qed.
+Check read1_tokens_spec : forall (A : Arith) (tok : Type) (parse : tok -> res A) (m0 : mesh1 A A) (toks : list tok) (n : nat) (val : nat -> A),
+  length toks = n * (m1_nvars m0 + 1) ->
+  (forall i, i < length toks -> exists t, nth_error toks i = Some t /\ parse t = Ok (val i)) ->
+  Forall (fun r => length r = m1_nvars m0) (m1_vars m0) ->
+  read1 tok parse m0 toks =
+  Ok (mkM1 (m1_nvars m0) (map (fun k => val (k * (m1_nvars m0 + 1))) (seq 0 n))
+           (map (fun k => map (fun v => val (k * (m1_nvars m0 + 1) + S v)) (seq 0 (m1_nvars m0))) (seq 0 n))).
+Print Assumptions read1_tokens_spec.
+Example read1_tokens_spec_nonvacuous :
+  let toks := [q 0 1; q 1 1; q 2 1; q 1 2; q 3 1; q 4 1] in
+  length toks = 2 * (m1_nvars ex_io0 + 1) /\
+  (forall i, i < length toks -> exists t, nth_error toks i = Some t /\ (fun t => @Ok AQ t) t = Ok (nth i toks (q 0 1))) /\
+  Forall (fun r => length r = m1_nvars ex_io0) (m1_vars ex_io0).
+Proof.
+  cbv zeta. split; [reflexivity|]. split.
+  - intros i Hi. destruct (nth_error [q 0 1; q 1 1; q 2 1; q 1 2; q 3 1; q 4 1] i) as [t|] eqn:E.
+    + exists t. split; [reflexivity|]. f_equal. symmetry. now apply nth_error_nth.
+    + apply nth_error_None in E. exfalso. apply (Nat.lt_irrefl i). eapply Nat.lt_le_trans; eauto.
+  - repeat constructor.
+Qed.
+
+Theorem read1_bad_token : forall (A : Arith) (tok : Type) (parse : tok -> res A) (m0 : mesh1 A A) (toks : list tok) i t k,
+  nth_error toks i = Some t -> parse t = Panic k -> exists k', read1 tok parse m0 toks = Panic k'.
+Proof. intros A tok parse m0 toks i t k. exact (MeshIO2.read1_bad_token tok parse m0 toks i t k). Qed.
+Check read1_bad_token : forall (A : Arith) (tok : Type) (parse : tok -> res A) (m0 : mesh1 A A) (toks : list tok) i t k,
+  nth_error toks i = Some t -> parse t = Panic k -> exists k', read1 tok parse m0 toks = Panic k'.
+Print Assumptions read1_bad_token.
+Example read1_bad_token_nonvacuous :
+  nth_error [true; false; true] 1 = Some false /\ (fun b : bool => if b then @Ok AQ (q 1 1) else Panic Unwrap) false = Panic Unwrap.
+Proof. split; reflexivity. Qed.
+
+(* ------------------------------------------------------------------ the tied step function *)
+(* step2 / step1 (Model/MeshOps.v) are the step functions that every check run executes against the
+   implementation, operation by operation; on writes they are the steps of the refinement theorem *)
+
+Theorem tied_writes_refine2 : forall (A : Arith) (K : @mconst A) (m : mesh2 A A) ws g,
+  wf2 m -> Forall (wvalid2 m) ws ->
+  (forall i j, i < m2_nx m -> j < m2_ny m -> get_nodes_vars2 m i j = Ok (g i j)) ->
+  exists m', state2 K m (map op2_of_write ws) = Ok m' /\ wf2 m' /\ shape2_eq m' m /\
+    forall i j, i < m2_nx m -> j < m2_ny m ->
+      step2 K m' (O2Get i j) = Ok (m', VV (fold_left (sstep2 (m2_nvars m)) ws g i j)).
+Proof. intros A K m ws g. exact (MeshHist.tied_writes_refine2 K m ws g). Qed.
+Check tied_writes_refine2 : forall (A : Arith) (K : @mconst A) (m : mesh2 A A) ws g,
+  wf2 m -> Forall (wvalid2 m) ws ->
+  (forall i j, i < m2_nx m -> j < m2_ny m -> get_nodes_vars2 m i j = Ok (g i j)) ->
+  exists m', state2 K m (map op2_of_write ws) = Ok m' /\ wf2 m' /\ shape2_eq m' m /\
+    forall i j, i < m2_nx m -> j < m2_ny m ->
+      step2 K m' (O2Get i j) = Ok (m', VV (fold_left (sstep2 (m2_nvars m)) ws g i j)).
+Print Assumptions tied_writes_refine2.
+Example tied_writes_refine2_nonvacuous :
+  let m : mesh2 AQ AQ := mesh2_new [q 0 1; q 1 2; q 2 1] [q 0 1; q 3 1] 2 in
+  let ws : list (@wop2 AQ) := [@WSet AQ 2 1 [q 1 1; q 2 1]; @WSetElem AQ 0 1 1 (q 3 1); @WAssign AQ (q 4 1); @WSetIdx AQ 1 0 [q 5 1; q 6 1]] in
+  wf2 m /\ Forall (wvalid2 m) ws /\
+  (forall i j, i < m2_nx m -> j < m2_ny m -> get_nodes_vars2 m i j = Ok (repeat (q 0 1) 2)).
+Proof.
+  cbv zeta. split; [apply mesh2_new_wf|]. split.
+  - repeat constructor.
+  - intros i j Hi Hj. exact (mesh2_new_get [q 0 1; q 1 2; q 2 1] [q 0 1; q 3 1] 2 i j Hi Hj).
+Qed.
+
+Theorem tied_writes_refine1 : forall (A : Arith) (K : @mconst A) (m : mesh1 A A) ws g,
+  wf1 m -> Forall (wvalid1 m) ws ->
+  (forall node, node < nnodes1 m -> get_nodes_vars1 m node = Ok (g node)) ->
+  exists m', state1 K m (map op1_of_write ws) = Ok m' /\ wf1 m' /\
+    m1_nodes m' = m1_nodes m /\ m1_nvars m' = m1_nvars m /\
+    forall node, node < nnodes1 m ->
+      step1 K m' (O1Get node) = Ok (m', VV (fold_left sstep1 ws g node)).
+Proof. intros A K m ws g. exact (MeshHist.tied_writes_refine1 K m ws g). Qed.
+Check tied_writes_refine1 : forall (A : Arith) (K : @mconst A) (m : mesh1 A A) ws g,
+  wf1 m -> Forall (wvalid1 m) ws ->
+  (forall node, node < nnodes1 m -> get_nodes_vars1 m node = Ok (g node)) ->
+  exists m', state1 K m (map op1_of_write ws) = Ok m' /\ wf1 m' /\
+    m1_nodes m' = m1_nodes m /\ m1_nvars m' = m1_nvars m /\
+    forall node, node < nnodes1 m ->
+      step1 K m' (O1Get node) = Ok (m', VV (fold_left sstep1 ws g node)).
+Print Assumptions tied_writes_refine1.
+Example tied_writes_refine1_nonvacuous :
+  let m : mesh1 AQ AQ := mesh1_new [q 0 1; q 1 2; q 2 1] 2 in
+  let ws : list (@wop1 AQ) := [@W1Set AQ 2 [q 1 1; q 2 1]; @W1SetElem AQ 0 1 (q 3 1); @W1SetIdx AQ 1 [q 5 1; q 6 1]] in
+  wf1 m /\ Forall (wvalid1 m) ws /\
+  (forall node, node < nnodes1 m -> get_nodes_vars1 m node = Ok (repeat (q 0 1) 2)).
+Proof.
+  cbv zeta. split; [apply mesh1_new_wf|]. split.
+  - repeat constructor.
+  - intros node Hn. exact (mesh1_new_get [q 0 1; q 1 2; q 2 1] 2 node Hn).
+Qed.
+
